@@ -634,8 +634,15 @@ pub fn c19(ctx: &GCtx) -> i32 {
         let strat = arb_fault_case(ctx, unit, *di, mt, vec![PKind::Binary, PKind::Compact], faults, arb_sched());
         let res = run_prop(&rec, &format!("c19-{}-{}", unit, mt.rust_name), per_type, strat, |c: &FaultCase| {
             let f = faulted(doc, mt, c);
-            if prealloc_open && c.sched != Sched::Sync && (f.enlarged || big_count(&c.fault)) {
+            if prealloc_open && c.sched != Sched::Sync && (f.enlarged || big_count(&c.fault) || (matches!(c.fault, Fault::Flip(..)) && matches!(f.kind, Some(MarkKind::Count) | Some(MarkKind::Length)))) {
                 rec.borrow_mut().exclude("async-count-prealloc (known finding of C09)");
+                return Ok(());
+            }
+            // corrupted type bytes / ids make an async decoder read arbitrary bytes as a count
+            // (the same finding, unpredictably): async decoding gets truncations and flips of
+            // payload / scalar bytes, the sync decoder gets every fault
+            if prealloc_open && c.sched != Sched::Sync && !(matches!(c.fault, Fault::Truncate(_)) || (matches!(c.fault, Fault::Flip(..)) && matches!(f.kind, Some(MarkKind::Payload) | Some(MarkKind::Scalar) | Some(MarkKind::Bool)))) {
+                rec.borrow_mut().exclude("async decode of a type / id corruption (may end in async-count-prealloc, known finding of C09)");
                 return Ok(());
             }
             {
